@@ -765,6 +765,26 @@ Proof.
   destruct (codewords5 [ascii_FNC1] msg cw s HP OK H) as (script & npad & SO & CW & ME & SH).
   exists script, npad. split; [exact SO|split; [exact CW|split; [exact ME|exact SH]]].
 Qed.
+(* macros switched on (the default of the builder) and a message that is not an envelope: nothing is stripped *)
+Theorem plain_plan5_roundtrip_macros_on msg cw s :
+  (forall body, ~ enveloped MACRO05_HEAD msg body) -> (forall body, ~ enveloped MACRO06_HEAD msg body) ->
+  (forall p, optimize_fn msg 0 symbols modes = Ok (Some p) -> P5 p) -> bytes_ok msg = true ->
+  encode_data_internal optimize_fn msg symbols None modes true false = Ok (cw, s) ->
+  (exists script npad, script_ok script npad = true /\ cw = stream script npad /\ meaning script = msg /\ Forall seg_no_edi script) /\
+  decode_data cw = Ok msg.
+Proof.
+  intros N5 N6 HP OK H.
+  assert (exists script npad, script_ok script npad = true /\ cw = stream script npad /\ meaning script = msg /\ Forall seg_no_edi script) as (script & npad & SO & CW & ME & SH).
+  2:{ split; [exists script, npad; auto|]. rewrite CW, (decode_script _ _ SO), ME. reflexivity. }
+  revert H. unfold encode_data_internal. cbv zeta.
+  set (e0 := with_size msg symbols modes false).
+  destruct (use_macro_spec e0) as (e1 & UM & _ & _ & NM). rewrite UM. cbn [bind].
+  assert (e1 = e0) as ->.
+  { apply NM. intros (_ & body & [E|E]); [exact (N5 body E)|exact (N6 body E)]. }
+  unfold e0, with_size. intros H.
+  destruct (codewords5 [] msg cw s HP OK H) as (script & npad & SO & CW & ME & SH).
+  exists script, npad. split; [exact SO|split; [|split; [exact ME|exact SH]]]. rewrite CW. unfold stream, tailS. cbn [app length]. rewrite N.add_0_l. reflexivity.
+Qed.
 End Plans5.
 Print Assumptions macro_plan5_roundtrip.
 
